@@ -75,6 +75,11 @@ open_("K03", "C19", "indexed-job-removed", {"experiment_running": True, "indexed
       "`orphans --clean` reads the experiment indexes, then lists the job folders: a job that a running experiment links after the indexes were read (e.g. an old, so far unindexed job submitted again) is taken for an orphan and deleted",
       "inherent check-then-act race of a lock-free cleaning command; closing it needs the command to exclude running experiments (experiment locks) or the scheduler to re-validate: not a small patch. Removal of a job that was already indexed when the command started is still reported")
 
+for what in ("running", "files"):
+    open_("K04-" + what, "C08", "capacity-exceeded-" + what, {"what": what, "job_lock_dropped_by_own_watcher": True},
+          "several schedulers run the same job under one file token: a scheduler's TokenFile.watch thread (watching the other scheduler's holding of that job) locks and unlocks the job's lock file inside the scheduler process; POSIX record locks are per process, so this drops the job lock the scheduler holds while starting the job; a foreign watcher then gets the lock, finds no pid file yet, deletes the starting job's token file, and the freed capacity is given to another job (thorough tier, 3 of 15 363 runs)",
+          "not small: the watcher threads and the scheduler must not use the same per-process record lock (needs open-file-description locks or an in-process registry of held job locks)")
+
 here = os.path.dirname(os.path.abspath(__file__))
 with open(os.path.join(here, "known_findings.json"), "w") as f:
     json.dump(F, f, indent=1)
